@@ -158,6 +158,30 @@ def structured_pairs(thorough):
     return out
 
 
+def exhaustive_small_pairs():
+    """Exhaustive slice (thorough): three small DAG shapes x EVERY assignment of
+    {Success, shutdown-reason, unrecoverable, ResourceExhausted-then-Success} to their components."""
+    import itertools
+    shapes = {
+        "chain3": [("Alpha", 0, []), ("Beta", 0, ["Alpha"]), ("Gamma", 1, ["Beta"])],
+        "join3": [("Alpha", 0, []), ("Beta", 0, []), ("Gamma", 1, ["Alpha", "Beta"])],
+        "diamond4": [("Alpha", 0, []), ("Beta", 0, ["Alpha"]), ("Gamma", 0, ["Alpha"]), ("Delta", 1, ["Beta", "Gamma"])],
+    }
+    letters = {"S": [{"reason": "Success", "duration": 0.5}], "H": [{"reason": "SystemIssue", "duration": 0.5}],
+               "F": [{"reason": "KnownIssue", "duration": 0.5}],
+               "R": [{"reason": "ResourceExhausted", "duration": 0.5}, {"reason": "Success", "duration": 0.5}]}
+    out = []
+    for sname, comps in shapes.items():
+        wf = {"stages": 2, "components": [{"name": n, "stage": st, "refs": list(r), "jobtype": "simulator",
+                                           "shutdownOn": ["SystemIssue"]} for n, st, r in comps]}
+        for assign in itertools.product("SHFR", repeat=len(comps)):
+            sc = {"default": {"reason": "Success", "duration": 0.5, "files": ["out.dat"]},
+                  "components": {"stage%d.%s" % (st, n): [dict(e) for e in letters[a]]
+                                 for (n, st, _), a in zip(comps, assign)}}
+            out.append({"wf": wf, "script": sc, "id": "ex-%s-%s" % (sname, "".join(assign))})
+    return out
+
+
 def main():
     c = vlib.Check(PROP, "exploration",
                    rule="one evaluation = one controller execution of a (workflow, exit script) pair under one "
@@ -196,6 +220,16 @@ def main():
                 sched_of[p["id"]] = 3 if not thorough else 6
             pairs = sp + pairs
             c.count("aggregation_slice_pairs", len(sp))
+            if thorough:
+                ex = exhaustive_small_pairs()
+                for p in ex:
+                    sched_of[p["id"]] = 2
+                pairs = ex + pairs
+                c.count("exhaustive_small_graph_pairs", len(ex))
+                c.extra["exhaustive_small_graph_slice"] = {
+                    "pairs": len(ex), "exhaustive": True,
+                    "space": "shapes {chain3, join3, diamond4} x all assignments of {Success, shutdown reason, "
+                             "unrecoverable, ResourceExhausted-then-Success} to every component"}
             if thorough:
                 c.extra["aggregation_slice"] = {"pairs": len(sp), "exhaustive": True,
                                                 "space": "shapes {direct, follower, mixed} x N in {2,3} x all {Success, shutdown} assignments"}
